@@ -8,6 +8,9 @@
   Helper development: `J2M/Proofs/Render2*.lean`.
 -/
 import J2M.Proofs.Render2Eval
+import J2M.Proofs.Render2Layouts
+import J2M.Proofs.Render2Pipeline
+import J2M.Proofs.Render2Tree
 import J2M.Props.C11
 namespace J2M.C14R
 open J2M.Rend2
@@ -51,6 +54,22 @@ theorem ready_of_subtree {g : Graph} {inj : List (String × String)} {roots : Li
     (hnd : (postL roots).Nodup) (h : SubtreeRefs g inj roots) : Ready g inj roots :=
   readyL_of_sub _ roots [] (by simpa using hnd) h
 
+/-! ### 0. the two key facts -/
+
+/-- **renderLevel_fixed**: from a name map `F` that every generator constructor of the structure leaves unchanged
+    (`FixedOn`), `renderLevel` returns `F` again, and every class is rendered with `F` (`renderPure`). -/
+theorem renderLevel_fixed (c : RenderCfg) (o : RenderOracles) (g : Graph) (inj : List (String × String)) (F : NameMap)
+    (fuel : Nat) (nodes : List Node) (h : FixedOn c o F (postL nodes)) :
+    renderLevel c o g inj fuel F nodes = (renderPure c o g inj F fuel nodes).map (fun r => (F, r.1, r.2)) :=
+  Rend2.renderLevel_fixed c o g inj F fuel nodes h
+
+/-- **genClass_reads_name?**: `genClass` depends on the name map only through `RefEnv.name?` (more precisely, only at
+    the indices its fields refer to: `Rend2.genClass_congr`). -/
+theorem genClass_reads_name? (c : RenderCfg) (o : RenderOracles) (e₁ e₂ : RefEnv) (m : Model) (nested : List String)
+    (hi : e₁.pathInj = e₂.pathInj) (h : ∀ i, e₁.name? i = e₂.name? i) :
+    genClass c o e₁ m nested = genClass c o e₂ m nested :=
+  genClass_congr_name? c o e₁ e₂ m nested hi h
+
 /-! ### 1. rendering twice -/
 
 /-- the statement without a condition on the structure -/
@@ -90,12 +109,55 @@ theorem render_twice_tree {c : RenderCfg} {o : RenderOracles} {g : Graph} {roots
     generateCode c o (withNames g names₁) roots inj pre = .ok (text₁, names₁) :=
   render_twice_partial hnd h (ready_of_subtree hp hsub) (stableOn_of_namesStable hs _)
 
+/-! #### the whole render job (layout + rendering) on the mutated registry
+
+The layout functions do not read class names (`composeFlat_withNames`, `composeNested_withNames`), so the second
+job uses the same structure. -/
+
+abbrev renderFlat := Rend2.renderFlat
+abbrev renderNested := Rend2.renderNested
+
+/-- **renderFlat_twice**: a flat render job run again on the registry it left behind gives the same text -/
+theorem renderFlat_twice {c : RenderCfg} {o : RenderOracles} {g : Graph} {pre : Option String} {text₁ : String}
+    {names₁ : NameMap} (hnd : IdxNodup g) (h : renderFlat c o g pre = .ok (text₁, names₁))
+    (hs : NamesStable c o names₁) : renderFlat c o (withNames g names₁) pre = .ok (text₁, names₁) := by
+  unfold renderFlat Rend2.renderFlat at h ⊢
+  rw [composeFlat_withNames]
+  rw [bind_eq_ok] at h ⊢
+  obtain ⟨l, hl, hg⟩ := h
+  exact ⟨l, hl, render_twice_flat hnd hg hs⟩
+
+/-- **renderNested_twice**: the same for a nested render job whose structure is `Ready` -/
+theorem renderNested_twice {c : RenderCfg} {o : RenderOracles} {g : Graph} {pre : Option String} {text₁ : String}
+    {names₁ : NameMap} (hnd : IdxNodup g) (h : renderNested c o g pre = .ok (text₁, names₁))
+    (hready : ∀ roots inj, composeNested g = .ok (roots, inj) → Ready g inj roots)
+    (hs : NamesStable c o names₁) : renderNested c o (withNames g names₁) pre = .ok (text₁, names₁) := by
+  unfold renderNested Rend2.renderNested at h ⊢
+  rw [composeNested_withNames]
+  rw [bind_eq_ok] at h ⊢
+  obtain ⟨⟨roots, inj⟩, hl, hg⟩ := h
+  exact ⟨(roots, inj), hl, render_twice_partial hnd hg (hready roots inj hl) (stableOn_of_namesStable hs _)⟩
+
+/-- **renderNested_twice_tree**: for tree-shaped registries (`LayoutP.Tree` = `C12.Tree`: every model has exactly
+    one pointer record) without pointer cycles (`Rooted`) whose fields follow the pointer records, the nested render
+    job run again on the registry it left behind gives the same text — the case named in the property. -/
+theorem renderNested_twice_tree {c : RenderCfg} {o : RenderOracles} {g : Graph} {depth : String → Nat}
+    {pre : Option String} {text₁ : String} {names₁ : NameMap}
+    (hT : LayoutP.Tree g) (hnd : IdxNodup g) (hroot : Rooted g depth) (hff : FieldsFollowPtrs g)
+    (h : renderNested c o g pre = .ok (text₁, names₁)) (hs : NamesStable c o names₁) :
+    renderNested c o (withNames g names₁) pre = .ok (text₁, names₁) := by
+  apply renderNested_twice hnd h _ hs
+  intro roots inj hr
+  obtain ⟨s, hst, rfl, rfl⟩ := composeNested_tree_state hT hr
+  exact ready_of_subtree ((tree_cover hst hroot hnd).nodup_iff.mpr hnd) (tree_subRefs hst hroot hff)
+
 /-! #### the unrestricted statement is false: a nested class that refers to its enclosing class
 
 `1A` (named `class`, converted to `class_`) has a field of type `1B`; `1B` has an optional field of type `1A`.  The
 nested layout puts `1B` inside `1A`; `_generate_code` renders the nested class *before* the generator of the
 enclosing class exists, i.e. before the name `class` is converted: the first rendering prints `Optional['class']`
-(a dangling reference), the second one `Optional['class_']`. -/
+(a dangling reference), the second one `Optional['class_']`.  The Python code behaves the same way (sample
+`{"b": {"x": 1, "a": {"b": {"x": 2, "a": null}}}}`, model name `class`, nested layout). -/
 
 def badG : Graph where
   models := [{ idx := "1A", fields := [("b", .ptr "1B")], name := some "class" },
@@ -250,6 +312,24 @@ theorem cross_framework {c₁ c₂ : RenderCfg} {o : RenderOracles} {g : Graph} 
   rw [← convertClassName_fw hcu hbl o]
   exact hs i hi n hn
 
+/-- **cross_framework_layouts**: the same across layouts.  Render with `c₁` and the structure `roots₁` (say, pydantic,
+    flat), then render the mutated registry with `c₂` and another structure `roots₂` over the same models (say,
+    dataclasses, nested): the second rendering gives exactly what `c₂` with `roots₂` gives on the fresh registry. -/
+theorem cross_framework_layouts {c₁ c₂ : RenderCfg} {o : RenderOracles} {g : Graph} {roots₁ roots₂ : List Node}
+    {inj₁ inj₂ : List (String × String)} {pre₁ pre₂ : Option String} {t₁ t₂ : String} {F₁ F₂ : NameMap}
+    (hcu : c₁.convertUnicode = c₂.convertUnicode) (hbl : c₁.blacklist = c₂.blacklist)
+    (hnd : IdxNodup g) (hp : (postL roots₁).Perm (postL roots₂)) (hpn : (postL roots₁).Nodup)
+    (h₁ : generateCode c₁ o g roots₁ inj₁ pre₁ = .ok (t₁, F₁))
+    (h₂ : generateCode c₂ o g roots₂ inj₂ pre₂ = .ok (t₂, F₂))
+    (hready : Ready g inj₂ roots₂) (hs : StableOn c₁ o F₁ (postL roots₁)) :
+    F₁ = F₂ ∧ generateCode c₂ o (withNames g F₁) roots₂ inj₂ pre₂ = .ok (t₂, F₂) := by
+  have e := names_layout_indep (convertClassName_fw hcu hbl o) hnd hp hpn h₁ h₂
+  subst e
+  refine ⟨rfl, render_twice_partial hnd h₂ hready ?_⟩
+  intro i hi n hn
+  rw [← convertClassName_fw hcu hbl o]
+  exact hs i (hp.mem_iff.mpr hi) n hn
+
 -- non-vacuity: the oracle facts hold for the example, and the blacklist of the example is suffix-safe
 example : C11.SuffixSafe (exCfg .pydantic).blacklist ∧
     UnidecodeFixes (exCfg .pydantic) exOracles exNames (postL exNested) ∧ StripWFixes exOracles exNames (postL exNested) :=
@@ -265,5 +345,12 @@ example : generateCode (exCfg .dataclasses) exOracles (withNames exTree exNames)
     generateCode (exCfg .dataclasses) exOracles exTree exNested [] none := by
   rw [cross_framework (c₁ := exCfg .pydantic) (c₂ := exCfg .dataclasses) rfl rfl exTree_idx exTree_nested exTree_nested_dc
     (ready_of_subtree exTree_post exTree_sub) (stableOn_of_namesStable (exTree_stable _) _), exTree_nested_dc]
+
+-- pydantic/flat first, then dataclasses/nested on the mutated registry = dataclasses/nested alone
+example : generateCode (exCfg .dataclasses) exOracles (withNames exTree exNames) exNested [] none =
+    generateCode (exCfg .dataclasses) exOracles exTree exNested [] none := by
+  rw [(cross_framework_layouts (c₁ := exCfg .pydantic) (c₂ := exCfg .dataclasses) rfl rfl exTree_idx
+    (by decide +kernel) (by decide +kernel) exTree_flat exTree_nested_dc
+    (ready_of_subtree exTree_post exTree_sub) (stableOn_of_namesStable (exTree_stable _) _)).2, exTree_nested_dc]
 
 end J2M.C14R
